@@ -25,6 +25,7 @@ use serde::{Deserialize, Serialize};
 use serde_json::{json, Value};
 
 use crate::util;
+use crate::wire::{self, Sub};
 
 #[derive(Serialize, Deserialize, Clone, Debug)]
 pub struct SysSpec {
@@ -70,6 +71,47 @@ struct DomCfg {
     block_from: Option<[u8; 12]>,
     sent: u64,
     dropped: u64,
+    /// user-endpoint traffic as seen on the wire (independent codec), with its fate; drained by the driver thread
+    net: Vec<Value>,
+    t0: Option<Instant>,
+}
+
+/// entity ids of user-defined endpoints (the two top bits of the kind octet are clear)
+fn user_eid(e: &[u8; 4]) -> bool {
+    e[3] & 0xc0 == 0 && e[3] != 0
+}
+
+fn hex4(e: &[u8; 4]) -> String {
+    e.iter().map(|b| format!("{b:02x}")).collect()
+}
+
+/// One line per submessage of user endpoints: what kind, which sequence numbers / fragments, sent by which
+/// participant (last octet of the GUID prefix of the RTPS header is not enough: 4 hex digits of its hash),
+/// addressed to which port offset, dropped or forwarded.
+fn net_lines(buf: &[u8], port_off: u16, dropped: bool, t: u64, out: &mut Vec<Value>) {
+    let Ok(m) = wire::decode(buf) else { return };
+    let from: String = m.prefix.iter().map(|b| format!("{b:02x}")).collect();
+    let fate = if dropped { "drop" } else { "fwd" };
+    for s in &m.subs {
+        let line = match s {
+            Sub::Data { writer, sn, payload, .. } if user_eid(writer) => json!({"k":"DATA","sn":sn,"len":payload.as_ref().map(|p| p.len()).unwrap_or(0)}),
+            Sub::DataFrag { writer, sn, frag_start, frags_in_sub, sample_size, .. } if user_eid(writer) => {
+                json!({"k":"FRAG","sn":sn,"f":frag_start,"n":frags_in_sub,"size":sample_size})
+            }
+            Sub::Heartbeat { writer, first, last, .. } if user_eid(writer) => json!({"k":"HB","first":first,"last":last}),
+            Sub::Gap { writer, start, list, .. } if user_eid(writer) => json!({"k":"GAP","start":start,"base":list.base,"set":list.members()}),
+            Sub::AckNack { writer, reader, set, .. } if user_eid(writer) => json!({"k":"ACKNACK","base":set.base,"set":set.members(),"rg":format!("{from}{}", hex4(reader))}),
+            Sub::NackFrag { writer, reader, sn, set, .. } if user_eid(writer) => json!({"k":"NACKFRAG","sn":sn,"set":set.members(),"rg":format!("{from}{}", hex4(reader))}),
+            _ => continue,
+        };
+        let mut line = line;
+        line["ev"] = json!("Net");
+        line["from"] = json!(from);
+        line["to"] = json!(port_off);
+        line["fate"] = json!(fate);
+        line["t"] = json!(t);
+        out.push(line);
+    }
 }
 
 fn doms() -> &'static Mutex<HashMap<u16, DomCfg>> {
@@ -105,7 +147,14 @@ fn install_policy() {
             cfg.counter += 1;
             cfg.sent += 1;
             let from_blocked = cfg.block_from.map(|p| buf.len() >= 20 && buf[8..20] == p).unwrap_or(false);
-            if from_blocked || (cfg.loss_pct > 0 && mix(cfg.seed ^ cfg.counter.wrapping_mul(0x9e3779b97f4a7c15)) % 100 < u64::from(cfg.loss_pct)) {
+            let lost = from_blocked || (cfg.loss_pct > 0 && mix(cfg.seed ^ cfg.counter.wrapping_mul(0x9e3779b97f4a7c15)) % 100 < u64::from(cfg.loss_pct));
+            if r >= 10 {
+                // user traffic goes to the unicast ports; under the same lock as the loss decision, so the lines
+                // of one domain are in the order the datagrams were handed to the network
+                let t = cfg.t0.map(|t0| t0.elapsed().as_millis() as u64).unwrap_or(0);
+                net_lines(buf, r, lost, t, &mut cfg.net);
+            }
+            if lost {
                 cfg.dropped += 1;
                 return true;
             }
@@ -134,6 +183,8 @@ fn install_policy() {
 fn set_loss(domain: u16, pct: u32) {
     if let Some(c) = doms().lock().unwrap().get_mut(&domain) {
         c.loss_pct = pct;
+        let t = c.t0.map(|t0| t0.elapsed().as_millis() as u64).unwrap_or(0);
+        c.net.push(json!({"ev":"Loss","pct":pct,"t":t}));
     }
 }
 fn set_block(domain: u16, from: Option<[u8; 12]>) {
@@ -190,6 +241,13 @@ impl AnyWriter {
 }
 
 impl AnyReader {
+    fn guid_hex(&self) -> String {
+        let g = match self {
+            AnyReader::K(r) => r.guid(),
+            AnyReader::N(r) => r.guid(),
+        };
+        g.to_bytes().iter().map(|b| format!("{b:02x}")).collect()
+    }
     fn statuses(&self) -> Vec<Value> {
         let mut v = vec![];
         loop {
@@ -263,6 +321,9 @@ impl World {
     }
     fn poll(&mut self, out: &mut Vec<Value>) {
         let t = self.ms();
+        if let Some(c) = doms().lock().unwrap().get_mut(&self.domain) {
+            out.append(&mut c.net);
+        }
         let mut push = |who: &'static str, evs: Vec<Value>, cur: &mut HashMap<&'static str, i64>| {
             for mut e in evs {
                 if e["k"] == "M" {
@@ -389,14 +450,28 @@ fn create(world: &mut World, what: &str, spec: &SysSpec, out: &mut Vec<Value>) {
         }
         _ => ok = false,
     }
-    out.push(json!({"ev":"Create","what":what,"ok":ok,"t":t}));
+    let guid = match what {
+        "R" => world.r.as_ref().map(AnyReader::guid_hex),
+        "R2" => world.r2.as_ref().map(AnyReader::guid_hex),
+        _ => None,
+    }
+    .unwrap_or_default();
+    // offset of the user-traffic unicast port of the participant the reader lives in (as in the Net lines)
+    let port = match what {
+        "R" => world.parts.get("PB"),
+        "R2" => world.parts.get(if spec.third { "PC" } else { "PB" }),
+        _ => None,
+    }
+    .map(|p| 11 + 2 * p.participant_id())
+    .unwrap_or(0);
+    out.push(json!({"ev":"Create","what":what,"ok":ok,"guid":guid,"port":port,"t":t}));
 }
 
 pub fn run_one(run_no: usize, spec: &SysSpec, out: &mut Vec<Value>) -> Vec<Vec<u8>> {
     install_policy();
     // distinct domain per run in flight: run_parallel gives run k to thread k % jobs
     let domain = 1 + (run_no % 180) as u16;
-    doms().lock().unwrap().insert(domain, DomCfg { loss_pct: 0, seed: spec.seed, counter: 0, block_from: None, sent: 0, dropped: 0 });
+    doms().lock().unwrap().insert(domain, DomCfg { loss_pct: 0, seed: spec.seed, counter: 0, block_from: None, sent: 0, dropped: 0, net: vec![], t0: Some(Instant::now()) });
     let mut world = World { domain, t0: Instant::now(), parts: HashMap::new(), topics: HashMap::new(), w: None, r: None, r2: None, got: HashMap::new(), cur: HashMap::new() };
     let mut rng = spec.seed;
     let mut next = |m: u64| {
